@@ -71,3 +71,21 @@ def lazy_group_reentry_deadlock(f, **kw):
         if explore.run_case(c2)["outcome"]["r"] == "deadlock":
             return False
     return True
+
+
+def mixed_position_equal_tier(f, **kw):
+    """D22: TieredInterval.__lt__ orders two delays although they are pointwise incomparable:
+    at a position where one interval ADDS and the other SETS the tier the two tier values are
+    equal, and a LATER tier decides the order.  (The adding interval arrives later for
+    positive departure sub-steps, whatever the later tiers say.)"""
+    if f.clause not in ("C08_orders_pointwise_incomparable", "C08_smaller_delay_arrives_later"):
+        return False
+    a, b = f.extra.get("a"), f.extra.get("b")
+    if not a or not b or a["c"] == b["c"]:
+        return False
+    lo, hi = min(a["c"], b["c"]), max(a["c"], b["c"])
+    diff = [i for i, (x, y) in enumerate(zip(a["t"], b["t"])) if x != y]
+    if not diff:
+        return False
+    first = diff[0]
+    return any(a["t"][i] == b["t"][i] and i < first for i in range(lo, hi))
